@@ -38,7 +38,8 @@ def accepts(fn, call):
   if any(isinstance(x, ast.Starred) for x in call.args) or \
       any(k.arg is None for k in call.keywords):
     return True, ''
-  params = [p.arg for p in a.posonlyargs + a.args][1:]      # drop self
+  static = any((dotted(d) or '') == 'staticmethod' for d in fn.decorator_list)
+  params = [p.arg for p in a.posonlyargs + a.args][0 if static else 1:]   # drop self
   n_def = len(a.defaults)
   required = params[:len(params) - n_def] if n_def else list(params)
   npos = len(call.args)
